@@ -25,7 +25,7 @@ def seed_all(s: int):
 
 
 def obs_space(family: str):
-    if family == "vector":
+    if family in ("vector", "deep"):
         return spaces.Box(-1.0, 1.0, (4,), dtype=np.float32)
     if family == "image":
         return spaces.Box(0.0, 1.0, (3, 16, 16), dtype=np.float32)
@@ -45,6 +45,9 @@ def net_config(family: str):
         return {"encoder_config": {"channel_size": [4], "kernel_size": [3], "stride_size": [2]}, "head_config": {"hidden_size": [16]}}
     if family in ("dict", "tuple", "boxdict"):
         return {"encoder_config": {"latent_dim": 8, "mlp_config": {"hidden_size": [16]}}, "head_config": {"hidden_size": [16]}}
+    if family == "deep":       # networks at the maximum number of layers (2): add_layer falls back to add_node
+        pin = {"hidden_size": [16, 16], "min_hidden_layers": 1, "max_hidden_layers": 2}
+        return {"encoder_config": copy.deepcopy(pin), "head_config": copy.deepcopy(pin)}
     return copy.deepcopy(NET)
 
 
